@@ -65,11 +65,31 @@ impl Prop for Histories {
             (gen::input_and_cap(f, history_input(f)), gen::policy_permissive(), gen::script(), vec(op(sw), 0..24))
                 .prop_map(move |((input, cap), policy, script, ops)| Case { format: f, input, cap, policy, script, ops })
         };
-        boxed(prop_oneof![per_format(Format::Fasta), per_format(Format::Fastq)])
+        // histories inside a buffer of more than 64 KiB over a document of a few hundred kB: exact-count reads of
+        // 1..249 records walk through the buffer and across its end (batches that start tens of kB into the buffer)
+        let large = move |f: Format| {
+            let big_op = prop_oneof![
+                3 => Just(Op::Next),
+                3 => (0u8..3).prop_map(Op::ReadSet),
+                6 => (0u8..3, prop_oneof![1 => 1u8..=20, 3 => 100u8..=249]).prop_map(|(s, n)| Op::ReadExact(s, n)),
+                1 => any::<u16>().prop_map(Op::Seek),
+                1 => any::<u16>().prop_map(Op::SeekSeen),
+                1 => (0u8..3).prop_map(Op::ShrinkSet),
+                1 => (0u8..3, 0u8..3).prop_map(|(a, b)| Op::CloneFromSet(a, b)),
+            ];
+            (gen::big_input(f), 2usize..5, prop_oneof![2 => 65_537usize..70_000, 1 => Just(100_000usize), 1 => Just(1usize << 17)], gen::policy_permissive(), vec(big_op, 4..24)).prop_map(move |(doc, rep, cap, policy, ops)| {
+                let input = if doc.last() == Some(&b'\n') { B(doc.0.repeat(rep)) } else { doc };
+                Case { format: f, input, cap, policy, script: Default::default(), ops }
+            })
+        };
+        boxed(prop_oneof![60 => per_format(Format::Fasta), 60 => per_format(Format::Fastq), 1 => large(Format::Fasta), 1 => large(Format::Fastq)])
     }
 
     fn check(&self, c: &Case, ctx: &mut Ctx) -> CheckResult {
         let m = Model::build(c.format, &c.input);
+        if c.cap > 65536 {
+            ctx.class("history inside a buffer larger than 64 KiB");
+        }
         let spec = RunSpec { input: &c.input, cap: c.cap, policy: c.policy, script: &c.script, ops: &c.ops, model: &m };
         let t = run_ops_fmt(c.format, &spec);
         livelock_check(fmt_name(c.format), &t)?;
@@ -119,7 +139,7 @@ impl Prop for Histories {
     }
 }
 
-pub const RULE_C04: &str = "cases = (format, document (mostly well-formed; FASTQ also with one defect at a generated record), capacity absolute or aimed at record boundaries, permissive policy, chunk/interrupt script, history of 0..24 operations over {next, records() step, read_record_set(slot 0..2), read_record_set_exact(slot, n in 1..20, rarely one of u32::MAX, 2^40, isize::MAX/40+1, isize::MAX, usize::MAX/8, usize::MAX), seek to a record, seek to a position reported earlier, into_records()}). Oracle: strict cursor model (exactly once, in order, content equal to the reference record, k >= 1 for plain sets, k = min(n, remaining) for exact sets, end only with nothing left, untouched slots unchanged, refilled slot = new batch only, error only after all preceding records). Exhaustive sub-check: every operation sequence of length <= 4 (thorough: 5) over a 9-operation alphabet (incl. read_record_set_exact(usize::MAX)) x 6 fixed small documents x 7 capacities. Non-trivial = the history uses >= 2 read kinds, delivers >= 2 records and (switches kind right after a set read, or an exact read crosses the end, or a slot is refilled with fewer records than it held). Distinct = hash(case).";
+pub const RULE_C04: &str = "cases = (format, document (mostly well-formed; FASTQ also with one defect at a generated record), capacity absolute or aimed at record boundaries, permissive policy, chunk/interrupt script, history of 0..24 operations (1 case in 60: a document of several hundred kB read with a buffer of 64 KiB..128 KiB and exact-count reads of up to 249 records) over {next, records() step, read_record_set(slot 0..2), read_record_set_exact(slot, n in 1..20, rarely one of u32::MAX, 2^40, isize::MAX/40+1, isize::MAX, usize::MAX/8, usize::MAX), seek to a record, seek to a position reported earlier, into_records()}). Oracle: strict cursor model (exactly once, in order, content equal to the reference record, k >= 1 for plain sets, k = min(n, remaining) for exact sets, end only with nothing left, untouched slots unchanged, refilled slot = new batch only, error only after all preceding records). Exhaustive sub-check: every operation sequence of length <= 4 (thorough: 5) over a 9-operation alphabet (incl. read_record_set_exact(usize::MAX)) x 6 fixed small documents x 7 capacities. Non-trivial = the history uses >= 2 read kinds, delivers >= 2 records and (switches kind right after a set read, or an exact read crosses the end, or a slot is refilled with fewer records than it held). Distinct = hash(case).";
 
 pub const RULE_C05: &str = "cases as for C04 but seek-heavy (about 40 % seeks), long leading blank regions, capacities smaller and larger than the distance to the target. Oracle: after next() the reported position equals the model's (line, byte) of that record; after a set read a reported position equals the coordinates of the next unread record (or of the invalid FASTQ group); after a seek the reads follow the cursor model from the target (seeking to an invalid FASTQ record reproduces its error). Exhaustive sub-check as for C04, with positions compared. Non-trivial = >= 1 seek followed by >= 1 read that returned a record. Distinct = hash(case).";
 
